@@ -277,7 +277,10 @@ def kani_units(prop=None):
     return [u for u in us if prop is None or prop in u['props']]
 
 
-def run_kani(unit, timeout=900):
+def run_kani(unit, timeout=900, playback=False):
+    """Append the unit's harness file to the REAL source file (scratch copy of the current tree) and run the harness.
+    playback=True: ask Kani for a concrete counterexample (`--concrete-playback=inplace`) and, if it gives one, execute it
+    natively on the real code (`cargo kani playback`): `counterexample` = {values, native_fails, test}."""
     scratch = tempfile.mkdtemp(prefix='dryoc_kani.', dir=os.environ.get('VERIF_SCRATCH', '/var/tmp'))
     t0 = time.time()
     try:
@@ -286,10 +289,14 @@ def run_kani(unit, timeout=900):
             shutil.copy(os.path.join(REPO, f), scratch)
         with open(os.path.join(VERIF, unit['harness_file'])) as f:
             harness = f.read()
-        with open(os.path.join(scratch, unit['append_to']), 'a') as f:
+        target = os.path.join(scratch, unit['append_to'])
+        with open(target, 'a') as f:
             f.write(harness)
         env = dict(os.environ, CARGO_NET_OFFLINE='true', CARGO_TARGET_DIR=KANI_TARGET)
         cmd = ['cargo', 'kani'] + unit.get('flags', []) + ['--harness', unit['name']]
+        if playback:
+            cmd += ['-Z', 'concrete-playback', '--concrete-playback=inplace']
+        timeout = unit.get('timeout', timeout)
         try:
             r = subprocess.run(cmd, cwd=scratch, env=env, stdout=subprocess.PIPE, stderr=subprocess.STDOUT, text=True,
                                timeout=timeout)
@@ -303,8 +310,25 @@ def run_kani(unit, timeout=900):
         elif 'VERIFICATION:- FAILED' in out and failed and not any('unwinding assertion' in f or 'not currently supported' in f
                                                                  for f in failed):
             verdict = 'failed'
+        cex = None
+        if playback and verdict == 'failed':
+            src = open(target).read()
+            m = re.search(r'fn (kani_concrete_playback_\w+)\(\) \{\s*let concrete_vals: Vec<Vec<u8>> = vec!\[(.*?)\];', src, re.S)
+            if m:
+                vals = [l.strip()[2:].strip() for l in m.group(2).split('\n') if l.strip().startswith('//')]
+                cex = {'test': m.group(1), 'values': vals, 'raw': ' '.join(m.group(2).split())[:2000]}
+                pcmd = ['cargo', 'kani', 'playback', '-Z', 'concrete-playback', '--', m.group(1)]
+                try:
+                    pr = subprocess.run(pcmd, cwd=scratch, env=env, stdout=subprocess.PIPE, stderr=subprocess.STDOUT, text=True,
+                                        timeout=900)
+                    cex['native_fails'] = ('test result: FAILED' in pr.stdout)
+                    mm = re.search(r"panicked at [^\n]*\n([^\n]*)", pr.stdout)
+                    cex['native_panic'] = mm.group(0)[:300] if mm else None
+                    cex['native_cmd'] = ' '.join(pcmd)
+                except subprocess.TimeoutExpired:
+                    cex['native_fails'] = None
         return {'name': unit['name'], 'verdict': verdict, 'failed_checks': failed[:10], 'rc': rc, 'wall_s': time.time() - t0,
                 'cmd': ' '.join(cmd), 'tail': out[-3000:], 'backs': unit.get('backs'), 'complete': unit.get('complete', False),
-                'what': unit.get('what')}
+                'what': unit.get('what'), 'mode': unit.get('mode', 'always'), 'counterexample': cex}
     finally:
         shutil.rmtree(scratch, ignore_errors=True)
